@@ -397,3 +397,6 @@ for _k, _what in (("C25", "340 programs x {export, export with cycle breaking}")
                            "signatures of the known findings of this property cannot hide a new failure there.")
 CHECKS["C09"]["text"] += (" The model carries the table of propagated evidence values (lookup_evidence) and is checked for every sound table; random "
                           "graphs are also run with the real propagate filling that table, as the default pipeline does.")
+CHECKS["C06"]["text"] += (" ADConstraint.tla models ConstraintAD.add under propagated evidence values / weights (TLC: Sound over all 3-head weight "
+                          "vectors, orders and sound initial values; the 'any instead of all' completion rule must fail); all explored behaviours are "
+                          "replayed on a real LogicFormula and random larger disjunctions are judged by JudgeADConstraint.tla.")
